@@ -26,6 +26,12 @@ def _strategy(draw, tier):
                                  kinds=("cmd", "exp", "group", "combine"), kind_weights=(2, 4, 1, 1),
                                  tape_max=30, flags=("again",)))
     case["second"] = draw(st.sampled_from([None, None, "same", "again"]))
+    # one dependency listed twice under two spellings (":d" and "//pkg:d"): whatever Conductor makes of such a
+    # definition (it is rejected today), no task may run twice
+    cands = [(i, k) for i, t in enumerate(case["tasks"]) for k, d in enumerate(t["deps"])
+             if case["tasks"][d[0]]["pkg"] == t["pkg"] and t["kind"] != "combine"]
+    if cands and draw(st.sampled_from(range(10))) == 0:
+        case["dup_mixed"] = list(draw(st.sampled_from(cands)))
     return case
 
 
@@ -37,9 +43,35 @@ def examples(tier):
     return 3000 if tier == "quick" else 120000
 
 
+def run_dup_mixed(case, root):
+    import copy
+    c = copy.deepcopy(case)
+    i, k = c.pop("dup_mixed")
+    j, form = c["tasks"][i]["deps"][k]
+    c["tasks"][i]["deps"].append([j, "abs" if form == "rel" else "rel"])
+    projgen.write_project(root, c)
+    graph.seed_case(root, c)
+    res = graph.run_cond(root, graph.argv_for(c), kspec=graph.kernel_spec(c, 1000.0))
+    obs = graph.Obs(c, res)
+    v = []
+    for t in obs.ids:
+        n_exec, n_run = len(obs.intervals(t)), len(obs.lines("running", t))
+        if n_exec > 1 or n_run > 1:
+            v.append(("executed_twice", "%s executed %d times (Running lines: %d) in one invocation; %s lists %s under two spellings" % (
+                t, n_exec, n_run, obs.ids[i], obs.ids[j])))
+    prog = [m[3] for m in obs.lines("running") + obs.lines("skipping")]
+    for kk, n in prog:
+        if kk > n:
+            v.append(("progress_index", "progress %d/%d" % (kk, n)))
+    labels = ["mixed_spelling_duplicate_dep", "duplicate_rejected" if not obs.executed() else "duplicate_executed"]
+    return Outcome(v, labels, False, obs.brief())
+
+
 def run_case(case):
     root = projgen.new_scratch("c02")
     try:
+        if case.get("dup_mixed"):
+            return run_dup_mixed(case, root)
         projgen.write_project(root, case)
         rows0 = graph.seed_case(root, case)
         graph.plant_conflicts(root, case)
